@@ -35,7 +35,7 @@ CLAIMS["C11"] = dict(
     ref="DESIGN.md §5 C11",
 )
 CLAIMS["C18"] = dict(
-    text="read_from of VecZnx / ScalarZnx / MatZnx on streams whose every byte is symbolic (all header words incl. products overflowing usize), at every enumerated truncation point: no panic/overflow/out-of-bounds, Err leaves the metadata unchanged, Ok leaves dimensions consistent with the buffer (size <= max_size, n*cols*max_size*8 within the buffer) and accessors in bounds; write->read round trips into equal, larger and re-used receivers reproduce content and dimensions. The poulpy-core wrappers GLWE, LWE and GLWECompressed are decided on fully symbolic streams too: Err leaves every metadata field (base2k, rank, seed, dimensions) unchanged, Ok leaves dimensions consistent with the buffer; GGSWCompressed and GGLWECompressed at every header truncation point (0..19 bytes): Err leaves base2k, dsize, rank, the number of seeds and the size unchanged. poulpy-bin-fhe BlindRotationKey and BlindRotationKeyCompressed (1-2 GGSW / seed-compressed GGSW elements): never a panic, Err leaves the recorded distribution unchanged, Ok only when the stream announces exactly the receiver's number of elements.",
+    text="read_from of VecZnx / ScalarZnx / MatZnx on streams whose every byte is symbolic (all header words incl. products overflowing usize), at every enumerated truncation point: no panic/overflow/out-of-bounds, Err leaves the metadata unchanged, Ok leaves dimensions consistent with the buffer (size <= max_size, n*cols*max_size*8 within the buffer) and accessors in bounds; write->read round trips into equal, larger and re-used receivers reproduce content and dimensions. The poulpy-core wrappers GLWE, LWE and GLWECompressed are decided on fully symbolic streams too: Err leaves every metadata field (base2k, rank, seed, dimensions) unchanged, Ok leaves dimensions consistent with the buffer; GGSWCompressed and GGLWECompressed at every header truncation point (0..19 bytes): Err leaves base2k, dsize, rank, the number of seeds and the size unchanged; LWECompressed at header/seed truncation points (0..48 bytes): Err leaves base2k unchanged. poulpy-bin-fhe BlindRotationKey and BlindRotationKeyCompressed (1-2 GGSW / seed-compressed GGSW elements): never a panic, Err leaves the recorded distribution unchanged, Ok only when the stream announces exactly the receiver's number of elements.",
     note="Small concrete receivers; stream length enumerated (field boundaries +-1). std::fmt::format stubbed (error messages), io::Result forgotten. Streams reaching the seed vector of GGSWCompressed/GGLWECompressed (allocation sized by an untrusted 32-bit count) and their Ok path, the other poulpy-core wrappers (GGLWE/GGSW/keys) and the other poulpy-bin-fhe key readers (composites without scalar fields of their own) are not encoded.",
     technique=KANI + "; stream bytes fully symbolic",
     ref="DESIGN.md §5 C18",
